@@ -165,6 +165,82 @@ theorem cleanup_iff_started_run_app_single_partial (d : AppDef)
   rw [run_app_eq_runner_when_startup_succeeds [d] hstart]
   exact cleanup_iff_started_runner_single d hsub hsd
 
+/- Full statement (false on the unchanged code — `subapp_contexts_skipped_after_failed_startup`,
+   `cleanup_error_skips_subapp_contexts`, `shutdown_handler_error_skips_all_cleanup`,
+   `parent_exits_before_subapp`, `f16_run_app_setup_outside_try`):
+   theorem cleanup_iff_started_tree (tbl) (entry) (hwf : wellFormed tbl = true) :
+       exitsOf (lifeLog tbl entry) = (enteredOf (lifeLog tbl entry)).reverse
+   Missing: lives in which start-up, an `on_shutdown` handler or a cleanup step raises, and
+   the order *between* different applications. -/
+/-- **Application trees — partial.**  For any tree of applications (sub-applications nested
+to any depth, any number of contexts and handlers), through either entry: if start-up, the
+`on_shutdown` signal and the `on_cleanup` signal all complete without raising, then every
+context whose start-up completed has its cleanup code run (exactly once, by
+`cleanup_only_started_at_most_once`), and within each application the cleanup order is the
+reverse of the start-up order.  (`hsame`: every application that receives `on_startup` also
+receives `on_cleanup` — what `add_subapp` does.) -/
+theorem cleanup_iff_started_tree_partial (tbl : List AppDef) (entry : Entry)
+    (hwf : wellFormed tbl = true)
+    (hsame : ∀ a ∈ groupsOf (rootChain tbl .startup), a ∈ groupsOf (rootChain tbl .cleanup))
+    (hstart : (Runner.step tbl {} .setup).err = none)
+    (hclean : (Runner.step tbl (Runner.step tbl {} .setup).r .cleanup).err = none) :
+    (∀ p ∈ enteredOf (lifeLog tbl entry), p ∈ exitsOf (lifeLog tbl entry)) ∧
+      ∀ a, (exitsOf (lifeLog tbl entry)).filter (fun p => p.1 = a) =
+        ((enteredOf (lifeLog tbl entry)).filter (fun p => p.1 = a)).reverse := by
+  have hentry : lifeLog tbl entry = lifeLog tbl .runner := by
+    cases entry with
+    | runner => rfl
+    | runApp => exact run_app_eq_runner_when_startup_succeeds tbl hstart
+  rw [hentry, lifeLog_runner]
+  simp only [wellFormed, Bool.and_eq_true, decide_eq_true_eq] at hwf
+  -- what setup did
+  have hsu : (send tbl .startup (rootChain tbl .startup) Exits.empty).err = none ∧
+      (Runner.step tbl {} .setup).ev = (send tbl .startup (rootChain tbl .startup) Exits.empty).ev ∧
+      (Runner.step tbl {} .setup).r =
+        ⟨(send tbl .startup (rootChain tbl .startup) Exits.empty).X, true, true⟩ := by
+    revert hstart
+    simp only [Runner.step]
+    cases (send tbl .startup (rootChain tbl .startup) Exits.empty).err <;> simp
+  obtain ⟨hsuok, hsuev, hsur⟩ := hsu
+  have FULL := send_startup_full tbl (rootChain tbl .startup) Exits.empty hwf.1 (fun _ _ => rfl) hsuok
+  -- what cleanup did
+  rw [hsur] at hclean ⊢
+  have hcl : (send tbl .cleanup (rootChain tbl .cleanup)
+        (send tbl .startup (rootChain tbl .startup) Exits.empty).X).err = none ∧
+      exitsOf (Runner.step tbl ⟨(send tbl .startup (rootChain tbl .startup) Exits.empty).X, true, true⟩ .cleanup).ev =
+        exitsOf (send tbl .cleanup (rootChain tbl .cleanup)
+          (send tbl .startup (rootChain tbl .startup) Exits.empty).X).ev ∧
+      enteredOf (Runner.step tbl ⟨(send tbl .startup (rootChain tbl .startup) Exits.empty).X, true, true⟩ .cleanup).ev = [] := by
+    have SD := send_shutdown_log tbl (rootChain tbl .shutdown) (send tbl .startup (rootChain tbl .startup) Exits.empty).X
+    have CB := send_cleanup_basic tbl (rootChain tbl .cleanup) (send tbl .startup (rootChain tbl .startup) Exits.empty).X
+    revert hclean
+    simp only [Runner.step, if_true]
+    cases (send tbl .shutdown (rootChain tbl .shutdown) (send tbl .startup (rootChain tbl .startup) Exits.empty).X).err with
+    | some e => simp
+    | none =>
+      simp only
+      cases (send tbl .cleanup (rootChain tbl .cleanup) (send tbl .startup (rootChain tbl .startup) Exits.empty).X).err with
+      | some e => simp
+      | none => simp [SD.1, SD.2.1, CB.1]
+  obtain ⟨hclok, hclex, hclen⟩ := hcl
+  have EX := send_cleanup_exits tbl (rootChain tbl .cleanup) (send tbl .startup (rootChain tbl .startup) Exits.empty).X
+  rw [send_cleanup_reached_all _ _ _ hclok] at EX
+  simp only [exitsOf_append, enteredOf_append, hsuev, send_startup_exits, hclex, hclen, EX, FULL.1,
+    List.nil_append, List.append_nil]
+  constructor
+  · intro p hp
+    simp only [List.mem_flatMap, List.mem_map] at hp ⊢
+    obtain ⟨g, hg, j, hj, rfl⟩ := hp
+    exact ⟨g, hsame g hg, j, by simpa using hj, rfl⟩
+  · intro a
+    rw [filter_flatMap_pairs _ (fun g => ((send tbl .startup (rootChain tbl .startup) Exits.empty).X g).reverse) a hwf.2,
+      filter_flatMap_pairs _ (fun g => (send tbl .startup (rootChain tbl .startup) Exits.empty).X g) a hwf.1]
+    by_cases hsu' : a ∈ groupsOf (rootChain tbl .startup)
+    · simp [hsu', hsame a hsu', List.map_reverse]
+    · have : (send tbl .startup (rootChain tbl .startup) Exits.empty).X a = [] := by
+        rw [FULL.2 a hsu']; rfl
+      simp [hsu', this]
+
 /-- **F16 in general.**  Through `_run_app`, whenever start-up raises — whatever the table,
 wherever the failure — *no* cleanup code runs at all (`await runner.setup()` precedes the
 `try … finally: await runner.cleanup()`). -/
@@ -227,6 +303,36 @@ theorem parent_exits_before_subapp :
     let tbl := rootSub ctxOk [.sub 1] [.sub 1] [.sub 1]
     wellFormed tbl = true ∧
     enteredOf (lifeLog tbl .runner) = [(0, 0), (1, 0)] ∧ exitsOf (lifeLog tbl .runner) = [(0, 0), (1, 0)] := by
+  decide +kernel
+
+/-! ## the hypotheses are satisfiable (non-vacuity) -/
+
+/-- a tree with a sub-application is well formed and satisfies every hypothesis of
+`cleanup_iff_started_tree_partial` -/
+example :
+    let tbl := rootSub ctxOk [.h 1 .ok, .sub 1] [.sub 1, .h 2 .ok] [.h 3 .ok, .sub 1]
+    wellFormed tbl = true ∧
+    (∀ a ∈ groupsOf (rootChain tbl .startup), a ∈ groupsOf (rootChain tbl .cleanup)) ∧
+    (Runner.step tbl {} .setup).err = none ∧
+    (Runner.step tbl (Runner.step tbl {} .setup).r .cleanup).err = none := by
+  decide +kernel
+
+/-- an application with failing contexts and handlers satisfies the hypotheses of
+`cleanup_iff_started_runner_single` -/
+example :
+    let d : AppDef := ⟨[ctxOk, ⟨.ok, .exc⟩, ⟨.exc, .ok⟩], [.h 1 .exc], [.h 2 .ok], [.h 3 .cancel]⟩
+    (∀ s, ∀ sl ∈ slotsOf s d, ∃ id f, sl = Slot.h id f) ∧ (∀ id f, Slot.h id f ∈ d.shutdown → f = .ok) := by
+  refine ⟨?_, ?_⟩
+  · intro s sl hsl
+    cases s <;> simp [slotsOf] at hsl <;> subst hsl <;> exact ⟨_, _, rfl⟩
+  · intro id f h
+    simp at h
+    exact h.2
+
+/-- start-up can fail (hypothesis of `run_app_failed_startup_never_cleans`) and succeed
+(hypothesis of `cleanup_iff_started_run_app_single_partial`) -/
+example : (Runner.step f16Table {} .setup).err ≠ none ∧
+    (Runner.step [⟨[ctxOk], [], [], []⟩] {} .setup).err = none := by
   decide +kernel
 
 end Aio.C20
